@@ -15,6 +15,8 @@ CONSTANTS
   FullStropKey = FALSE
   Docs = {0}
   PureFilters = TRUE
+  Confs = {0}
+  PureDerivedNames = TRUE
 VIEW View
 INVARIANT EmitBad
 CHECK_DEADLOCK FALSE
